@@ -46,6 +46,9 @@ class _D(Domain):
         from dlint.walk import fold_truth
         n = sym.node
         if isinstance(n, ast.Call) and dotted(n.func) == 'isinstance':
+            if len(n.args) == 2 and isinstance(n.args[0], ast.Call) \
+                    and norm(n.args[0].func) == norm(n.args[1]):
+                return True         # isinstance(C(), C)
             return None
         return fold_truth(n)
 
@@ -169,6 +172,18 @@ def check_setitem(program, rep):
                         f'the handle is stored under {M}.handles[{k}] without '
                         f'removing {k} from {M}.maps: the name denotes both a '
                         'handle and a sub-map')
+    vp = f.params()[2] if len(f.params()) > 2 else 'value'
+    unstored = [ex for ex in exits if ex.kind != 'raise' and not any(
+        e.kind == 'store' and e.target is not None and _container_store(
+            e.target.node) and e.sym.text == vp for e in ex.state.trace)]
+    rep.check(not unstored, 'C11.exclusive', site,
+              f'{vp} is stored on every path',
+              'the latest assignment wins: every path stores the value',
+              'a path of __setitem__ returns without storing the value (a '
+              'shortcut taken from stale back-links): assigning a resource '
+              'again under a name it held before is silently ignored',
+              line=getattr(unstored[0].node, 'lineno', f.node.lineno)
+              if unstored else f.node.lineno)
     rep.floor('C11.backlink', 'stores into maps/handles on the paths of '
               '__setitem__', nstores, 3)
     for (rule, text, line), d in sorted(res.items(), key=lambda kv: kv[0][2]):
@@ -318,6 +333,12 @@ def check_clear(program, rep):
                 st_ = stores.get(x, {})
                 if is_child is False:
                     continue
+                if is_child is None and ('parent' in st_ or 'key' in st_):
+                    flag(kind, f'the back-links of {x} are reset without '
+                         'testing that its parent is this map: a resource '
+                         'that was meanwhile assigned into another map is '
+                         'detached from that map')
+                    continue
                 if 'parent' not in st_ or 'key' not in st_:
                     flag(kind, f'a child ({x}) of the cleared map keeps its '
                          'parent / key')
@@ -371,6 +392,42 @@ def check_lookup(program, rep):
             for j in range(n_it):
                 V = f'{V}.maps[{loopvar_name(parts_iter, j)}]'
             val = ex.payload.text if ex.payload is not None else 'None'
+            if not has_loop:
+                # functools.reduce(step, parts, self) with step(m, part) ==
+                # m.maps[part] is the same walk
+                for rname in ('functools.reduce', 'reduce'):
+                    pre = f'{rname}('
+                    k = val.find(pre)
+                    if k < 0:
+                        continue
+                    try:
+                        tree = ast.parse(val, mode='eval').body
+                    except SyntaxError:
+                        continue
+                    for c in ast.walk(tree):
+                        if isinstance(c, ast.Call) and dotted(c.func) == \
+                                rname and len(c.args) == 3 and norm(
+                                    c.args[1]) == parts_iter and norm(
+                                        c.args[2]) == 'self':
+                            stepf = None
+                            if isinstance(c.args[0], ast.Lambda):
+                                stepf = c.args[0]
+                                ps_ = [a.arg for a in stepf.args.args]
+                                body_ = stepf.body
+                            else:
+                                r_ = program.lookup(f.module, norm(c.args[0]))
+                                if r_ and r_[0] == 'func':
+                                    ps_ = r_[1].params()
+                                    b_ = strip_docstring(r_[1].node.body)
+                                    body_ = b_[0].value if len(
+                                        b_) == 1 and isinstance(
+                                            b_[0], ast.Return) else None
+                                    stepf = r_[1]
+                            if stepf is not None and body_ is not None \
+                                    and len(ps_) == 2 and norm(body_) == \
+                                    f'{ps_[0]}.maps[{ps_[1]}]':
+                                V = norm(c)
+                                has_loop = True
             if val == 'default' and name == 'get':
                 continue
             nret += 1
